@@ -761,6 +761,31 @@ func TestVerif_C14_StalledWriteBuffer(t *testing.T) {
 				refused++
 			}
 		}
+		if rapid.IntRange(0, 3).Draw(rt, "closeWhileThePeerIsStalled") == 0 {
+			// the peer never reads again: closing the packet connection must not wait for the queued frames
+			done := make(chan struct{})
+			go func() { _ = pc.Close(); close(done) }()
+			for waited := 0; ; waited++ {
+				select {
+				case <-done:
+				case <-time.After(5 * time.Second):
+					if stuck, dump := vfStuck("pion/ice/v4"); stuck {
+						conn.Close() //nolint:errcheck,gosec // (lets the wedged Close and the deferred one finish)
+						st.Fail(rt, "C15/close/waits-for-a-peer-that-does-not-read", "Close of the TCP packet connection has not returned: write buffer %d, %d packets accepted, the peer does not read\n%s", bufSize, len(accepted), dump)
+					} else if waited < 5 {
+						continue
+					} else {
+						st.Inconclusive()
+						rt.Fatalf("VERIF-INCONCLUSIVE: Close still running after 30 s but not stably blocked")
+					}
+				}
+
+				break
+			}
+			st.Record(vfHash("close-stalled", bufSize, len(accepted), refused), len(accepted) > 0, "close-while-stalled")
+
+			return
+		}
 		sentinel := []byte("\x00end-of-sequence\x00")
 		conn.mu.Lock()
 		conn.stalled = false
